@@ -221,6 +221,47 @@ def load_known(pid):
     return out
 
 
+def gen_schedules(specdir, sch, tier, seed):
+    """M2: export behaviours of an implementation-shaped spec.
+    sch = dict(module, sim_cfg, num={tier:n}, depth, cex=[cfg,...]).  Returns list of {h:[...], d:[...], src}."""
+    import ast
+    out, seen = [], set()
+
+    def add(js, src):
+        d = json.loads(js)
+        key = json.dumps(d["h"], sort_keys=True)
+        if key in seen or len(d["h"]) < 3:
+            return
+        seen.add(key)
+        out.append({"h": d["h"], "d": sorted(d.get("d", [])), "src": src})
+
+    # counterexamples of the as-built configuration: one schedule per violated invariant
+    for cfg in sch.get("cex", []):
+        r = run_tlc(specdir, sch["module"], cfg, timeout=sch.get("timeout", 600))
+        if r["ok"]:
+            continue  # nothing violated (e.g. after a repair): no counterexample schedule
+        if not r["invariant"]:
+            raise Broken("as-built model %s failed for another reason:\n%s" % (cfg, r["out"][-2000:]))
+        o = r["out"]
+        hs = re.findall(r"hist = (<<.*?>>)\n/?\\?", o, re.S)
+        ds = re.findall(r"defects = (\{.*?\})", o)
+        if not hs:
+            raise Broken("no hist in counterexample of " + cfg)
+        steps = [{"a": a, "k": k, "v": int(v)} for k, v, a in re.findall(r'\[k \|-> "(\w+)", v \|-> (\d+), a \|-> "(\w+)"\]', hs[-1])]
+        tags = re.findall(r'"(\w+)"', ds[-1]) if ds else []
+        add(json.dumps({"h": steps, "d": tags}), "cex:" + cfg)
+    n = sch["num"][tier]
+    r = run_tlc(specdir, sch["module"], sch["sim_cfg"], workers=1, timeout=sch.get("timeout", 600),
+                simulate="num=%d" % n, extra=["-depth", str(sch["depth"]), "-seed", str(seed)])
+    for line in r["out"].splitlines():
+        if line.startswith('<<"BEH", '):
+            lit = line[len('<<"BEH", '):-2]
+            add(ast.literal_eval(lit), "sim")
+    if not out:
+        raise Broken("no schedules exported:\n" + r["out"][-2000:])
+    return out, r
+
+
 def match_known(known, rec, trace_head):
     """A known finding matches a rejected record iff every key of its signature equals the record's
     (keys prefixed cfg. are looked up in the trace's reset record)."""
@@ -228,6 +269,10 @@ def match_known(known, rec, trace_head):
         sig = f.get("signature", {})
         ok = True
         for k, v in sig.items():
+            if k.startswith("cfgin."):
+                if v not in ((trace_head.get("cfg") or {}).get(k[6:]) or []):
+                    ok = False
+                continue
             if k.startswith("cfg."):
                 got = (trace_head.get("cfg") or {}).get(k[4:])
             else:
